@@ -356,3 +356,165 @@ theorem deliver_shape (c : Cfg) (s : State) (id : Nat) (r : Row)
       · exact Or.inr h1
 
 end Stab.Engine
+
+namespace Stab.Engine
+open Stab
+
+/-! ### handlers mark only the message they handle -/
+
+theorem mem_marksOf (l : List Eff) (p : Nat) : p ∈ marksOf l ↔ Eff.mark p ∈ l := by
+  induction l with
+  | nil => simp [marksOf]
+  | cons e es ih => cases e <;> simp [marksOf, ih]
+
+theorem mem_joinTracking_flatten (c : Cfg) (s : State) (i : Nat) (e : Eff) (h : e ∈ (joinTracking c s i).flatten) :
+    ∃ d new, e = .setStage d new := by
+  unfold joinTracking at h
+  simp only [List.mem_flatten, List.mem_filterMap] at h
+  obtain ⟨l, ⟨d, _, hd⟩, he⟩ := h
+  split at hd
+  · split at hd
+    · cases hd
+    · cases hd
+      simp only [List.mem_singleton] at he
+      exact ⟨_, _, he⟩
+  · cases hd
+
+theorem handle_marks (c : Cfg) (s : State) (row : Row) : ∀ p ∈ marksOf (handle c s row).1.flatten, p = row.id := by
+  intro p hp
+  rw [mem_marksOf] at hp
+  unfold handle at hp
+  cases hm : row.msg with
+  | startWorkflow =>
+    simp only [hm, hStartWorkflow] at hp
+    (repeat' split at hp) <;> simp_all
+  | startStage i r =>
+    simp only [hm, hStartStage, hStartStageCore, startIfReady] at hp
+    (repeat' split at hp) <;> simp_all
+  | startTask i t =>
+    simp only [hm, hStartTask] at hp
+    (repeat' split at hp) <;> simp_all
+  | runTask i t =>
+    simp only [hm, hRunTask] at hp
+    split at hp
+    · rename_i txns hg
+      unfold runTaskGuard at hg
+      simp only [] at hg
+      (repeat' split at hg) <;> (try (cases hg)) <;> (try (simp at hg)) <;> (try (subst hg)) <;> simp_all
+    · simp only [runTaskCommit, processResult] at hp
+      (repeat' split at hp) <;> simp_all
+  | completeTask i t st =>
+    simp only [hm, hCompleteTask] at hp
+    (repeat' split at hp) <;> simp_all
+  | completeStage i =>
+    simp only [hm, hCompleteStage] at hp
+    (repeat' split at hp) <;> (try simp_all)
+    all_goals (
+      rcases hp with ⟨l, hl, hmem⟩ | hp
+      · obtain ⟨d, new, hd⟩ := mem_joinTracking_flatten c s i _ (List.mem_flatten.mpr ⟨l, hl, hmem⟩)
+        cases hd
+      · exact hp)
+  | skipStage i =>
+    simp only [hm, hSkipStage] at hp
+    (repeat' split at hp) <;> simp_all
+  | cancelStage i =>
+    simp only [hm, hCancelStage] at hp
+    (repeat' split at hp) <;> simp_all
+  | completeWorkflow r =>
+    simp only [hm, hCompleteWorkflow] at hp
+    (repeat' split at hp) <;> simp_all
+  | cancelWorkflow =>
+    simp only [hm, hCancelWorkflow] at hp
+    (repeat' split at hp) <;> simp_all
+  | jumpToStage a b =>
+    simp only [hm, hJumpToStage] at hp
+    (repeat' split at hp) <;> simp_all
+  | signalStage i pp =>
+    simp only [hm, hSignalStage] at hp
+    (repeat' split at hp) <;> simp_all
+
+/-! ### `Plumb` is preserved by every acknowledged delivery -/
+
+theorem plumb_of_shape (c : Cfg) (s : State) (id : Nat) (r : Row) (s' : State) (hp : Plumb s)
+    (hmem : r ∈ s.queue) (hid : r.id = id) (h : DeliverShape c s id r s') : Plumb s' := by
+  have hnew := mkRows_ids s.nextId (pushesOf (handle c s { r with attempts := r.attempts + 1 }).1.flatten)
+  refine ⟨?_, ?_, ?_, ?_⟩
+  · rw [h.queue, List.map_append, List.nodup_append]
+    refine ⟨(hp.ids.sublist ((List.filter_sublist).map _)), mkRows_nodup _ _, ?_⟩
+    intro a ha b hb hab
+    simp only [List.mem_map] at ha hb
+    obtain ⟨x, hx, rfl⟩ := ha
+    obtain ⟨y, hy, rfl⟩ := hb
+    have h1 := hp.fresh x (List.mem_filter.mp hx).1
+    have h2 := (hnew y hy).1
+    omega
+  · intro x hx
+    rw [h.queue] at hx
+    rw [h.nextId]
+    rcases List.mem_append.mp hx with h1 | h1
+    · have := hp.fresh x (List.mem_filter.mp h1).1; omega
+    · exact (hnew x h1).2
+  · intro p hpp
+    rw [h.nextId]
+    rcases (h.processed p).mp hpp with h1 | h1 | h1
+    · have := hp.pfresh p h1; omega
+    · have := handle_marks c s { r with attempts := r.attempts + 1 } p h1
+      have h2 := hp.fresh r hmem
+      simp only at this
+      omega
+    · have h2 := hp.fresh r hmem
+      omega
+  · intro x hx hproc
+    rw [h.queue] at hx
+    rcases List.mem_append.mp hx with h1 | h1
+    · have hxq := (List.mem_filter.mp h1).1
+      have hne : x.id ≠ id := by
+        have := (List.mem_filter.mp h1).2
+        simpa using this
+      rcases (h.processed x.id).mp hproc with h2 | h2 | h2
+      · exact hp.unproc x hxq h2
+      · have := handle_marks c s { r with attempts := r.attempts + 1 } x.id h2
+        simp only at this
+        exact hne (this.trans hid)
+      · exact hne h2
+    · have hge := (hnew x h1).1
+      rcases (h.processed x.id).mp hproc with h2 | h2 | h2
+      · have := hp.pfresh _ h2; omega
+      · have := handle_marks c s { r with attempts := r.attempts + 1 } x.id h2
+        have h3 := hp.fresh r hmem
+        simp only at this
+        omega
+      · have h3 := hp.fresh r hmem
+        omega
+
+theorem claimRow_plumb (s : State) (id : Nat) (hp : Plumb s) : Plumb (claimRow s id) := by
+  refine ⟨?_, ?_, hp.pfresh, ?_⟩
+  · rw [claimRow_queue_ids]; exact hp.ids
+  · intro x hx
+    simp only [claimRow, List.mem_map] at hx
+    obtain ⟨y, hy, rfl⟩ := hx
+    have := hp.fresh y hy
+    show (if (y.id == id) = true then { y with attempts := y.attempts + 1 } else y).id < s.nextId
+    split <;> exact this
+  · intro x hx
+    simp only [claimRow, List.mem_map] at hx
+    obtain ⟨y, hy, rfl⟩ := hx
+    have := hp.unproc y hy
+    show (if (y.id == id) = true then { y with attempts := y.attempts + 1 } else y).id ∉ s.processed
+    split <;> exact this
+
+/-- every acknowledged delivery keeps the queue bookkeeping sound -/
+theorem deliver_plumb (c : Cfg) (s : State) (id : Nat) (hp : Plumb s) : Plumb (step c s (.deliver id)) := by
+  cases hf : s.queue.find? (fun x => x.id == id) with
+  | none => simp only [step, hf]; exact hp
+  | some r =>
+    obtain ⟨hmem, hid⟩ := find_mem hf
+    have hun := hp.unproc r hmem
+    cases hr : raises c s { r with attempts := r.attempts + 1 } with
+    | true => rw [deliver_raises c s id r hf hun hr]; exact claimRow_plumb s id hp
+    | false => exact plumb_of_shape c s id r _ hp hmem hid (deliver_shape c s id r hf hun (hp.fresh r hmem) hr)
+
+theorem start_plumb (c : Cfg) : Plumb (start c) := by
+  refine ⟨?_, ?_, ?_, ?_⟩ <;> simp [start, applyEff, initState]
+
+end Stab.Engine
